@@ -607,7 +607,17 @@ class HttpStreamSession:
         # Strip state token from user-visible metadata
         user_cm = strip_keys(ab.custom_metadata, STATE_KEY, CALL_STATE_KEY)
 
-        _drain_stream(reader)
+        # The step may have logged after it emitted: those log batches follow
+        # the data batch in this response and nothing reads it again later.
+        try:
+            while True:
+                _read_batch_with_log_check(reader, self._on_log, self._external_config)
+        except StopIteration:
+            pass
+        except BaseException:
+            with contextlib.suppress(Exception):
+                _drain_stream(reader)
+            raise
         return AnnotatedBatch(batch=ab.batch, custom_metadata=user_cm)
 
     def _send_continuation(self, token: bytes) -> ValidatedReader:
